@@ -188,8 +188,11 @@ func (w *worker[T, JobType]) releaseWaiters(processing uint32) {
 
 	// Only release waiters if worker is paused or if running with an empty queue
 	if w.IsPaused() || (w.IsRunning() && w.queues.Len() == 0) {
-		// Broadcast to all waiters to signal they can continue
+		// Broadcast to all waiters to signal they can continue. The waiters' mutex is held: a waiter that has
+		// just seen "still busy" keeps that mutex until it is parked, so it cannot miss this broadcast
+		w.mx.Lock()
 		w.waiters.Broadcast()
+		w.mx.Unlock()
 	}
 }
 
